@@ -219,6 +219,9 @@ type kase struct {
 	RootSpelling string `json:"root_spelling,omitempty"`
 	Loader       string `json:"loader_location,omitempty"`
 	Model        string `json:"model,omitempty"`
+	// history part: the operations applied to one library instance; Step is the judged one
+	History []histOp `json:"history,omitempty"`
+	Step    int      `json:"step,omitempty"`
 }
 
 // ---------------------------------------------------------------------------
@@ -410,17 +413,18 @@ type obs struct {
 }
 
 type worker struct {
-	sb     *sandbox
-	env    *el.Env
-	marks  []string
-	loc    string
-	used   bool
-	entry  int
-	asked  []string
-	mapLib *lisp.FSLibrary
-	dirLib *lisp.FSLibrary
-	rfl    map[string]*lisp.RelativeFileSystemLibrary
-	progs  map[string]lisp.Program // loading files, parsed once per (location, content)
+	sb      *sandbox
+	env     *el.Env
+	marks   []string
+	loc     string
+	used    bool
+	entry   int
+	asked   []string
+	dirFS   fs.FS                   // os.DirFS(B/root), as cmd/run.go builds it
+	progs   map[string]lisp.Program // loading files, parsed once per (location, content)
+	hlocs   []string                // history part: the locations a hist.lisp loader asks for
+	hasked  []int                   // history part: len(asked) when each nested operation started
+	hstates map[string]struct{}     // history part: canonical states seen by this worker
 
 	// local counters, flushed at the end
 	outcomes map[outKey]int64
@@ -444,9 +448,8 @@ func (b bdef) Formals() *lisp.LVal                             { return b.formal
 func (b bdef) Eval(env *lisp.LEnv, args *lisp.LVal) *lisp.LVal { return b.fn(env, args) }
 
 func newWorker(sb *sandbox) *worker {
-	w := &worker{sb: sb, outcomes: map[outKey]int64{}, info: map[string]int64{}, rfl: map[string]*lisp.RelativeFileSystemLibrary{}, progs: map[string]lisp.Program{}}
-	w.mapLib = &lisp.FSLibrary{FS: recFS{inner: sb.mapfs, asked: &w.asked}}
-	w.dirLib = &lisp.FSLibrary{FS: recFS{inner: os.DirFS(sb.B + "/root"), asked: &w.asked}}
+	w := &worker{sb: sb, outcomes: map[outKey]int64{}, info: map[string]int64{}, hstates: map[string]struct{}{}, progs: map[string]lisp.Program{}}
+	w.dirFS = os.DirFS(sb.B + "/root")
 	w.freshEnv()
 	return w
 }
@@ -467,6 +470,15 @@ func (w *worker) freshEnv() {
 			w.used = true
 			return lisp.String(w.loc)
 		}},
+		bdef{symHLoc, lisp.Formals("i"), func(env *lisp.LEnv, args *lisp.LVal) *lisp.LVal {
+			i := args.Cells[0].Int
+			if args.Cells[0].Type != lisp.LInt || i < 0 || i >= len(w.hlocs) {
+				return env.Errorf("c20: no operation %v in this history", args.Cells[0])
+			}
+			w.marks = append(w.marks, histSep(i))
+			w.hasked = append(w.hasked, len(w.asked))
+			return lisp.String(w.hlocs[i])
+		}},
 		bdef{symHost, lisp.Formals(), func(env *lisp.LEnv, args *lisp.LVal) *lisp.LVal {
 			if w.used {
 				return env.Errorf("c20: the location under test was already consumed (recursive loader)")
@@ -483,19 +495,17 @@ func (w *worker) freshEnv() {
 	}})
 }
 
+// libFor returns a NEW library instance: the cases of parts one and two are
+// state-free (library state carried from one load to the next is the subject
+// of the history part).
 func (w *worker) libFor(part string, rc *rootCfg) lisp.SourceLibrary {
 	if part == "fs" {
 		if rc.Spelling == "dirfs" {
-			return w.dirLib
+			return &lisp.FSLibrary{FS: recFS{inner: w.dirFS, asked: &w.asked}}
 		}
-		return w.mapLib
+		return &lisp.FSLibrary{FS: recFS{inner: w.sb.mapfs, asked: &w.asked}}
 	}
-	l := w.rfl[rc.ID]
-	if l == nil {
-		l = &lisp.RelativeFileSystemLibrary{RootDir: w.sb.expand(rc.Spelling)}
-		w.rfl[rc.ID] = l
-	}
-	return l
+	return &lisp.RelativeFileSystemLibrary{RootDir: w.sb.expand(rc.Spelling)}
 }
 
 func baseName(p string) string {
@@ -714,6 +724,9 @@ func (d *drv) violClass(part string, kind string, sb *sandbox, cwdReal string, r
 // runKase executes one case straight-line in a fresh runtime.  The process
 // must already be in the phase's working directory.
 func runKase(sb *sandbox, cwd *node, k kase) (kind, class, expected, got string, err error) {
+	if k.Part == "history" {
+		return replayHistory(sb, cwd, k)
+	}
 	var ph *phaseCfg
 	phases := append(append([]phaseCfg(nil), rflPhases...), fsPhase)
 	for i := range phases {
@@ -946,8 +959,21 @@ func run(r *core.Run) {
 
 	d.precheck(info)
 
+	// development aid: C20_PARTS=rfl,fs,history restricts the run (reported as capped)
+	parts := map[string]bool{"rfl": true, "fs": true, "history": true}
+	if s := os.Getenv("C20_PARTS"); s != "" {
+		parts = map[string]bool{}
+		for _, p := range strings.Split(s, ",") {
+			parts[p] = true
+		}
+		r.Cap("C20_PARTS=" + s + ": only some parts of the space were run")
+	}
+
 	// ---- part one: RelativeFileSystemLibrary with RootDir
 	for pi := range rflPhases {
+		if !parts["rfl"] {
+			break
+		}
 		ph := &rflPhases[pi]
 		cwd, err := sb.chdir(ph.CwdRel)
 		if err != nil {
@@ -990,12 +1016,11 @@ func run(r *core.Run) {
 						r.Nontrivial(ph.CwdRel + "|" + cx.ID + "|" + fam + "|" + sb.template(loc))
 					}
 					for _, rc := range byFam[fam] {
-						lib := w.libFor("rfl", rc)
 						for e := 0; e < nEntries; e++ {
 							if cx.Chain && e == eLoadSource {
 								continue
 							}
-							o := w.exec(lib, cx, execL, e, loc)
+							o := w.exec(w.libFor("rfl", rc), cx, execL, e, loc)
 							w.evals++
 							d.handle(w, "rfl", ph, cwd, rc, cx, e, L, loc, &vd, &o, false)
 						}
@@ -1010,7 +1035,7 @@ func run(r *core.Run) {
 	}
 
 	// ---- part two: FSLibrary over fstest.MapFS and os.DirFS behind a recording fs.FS
-	{
+	if parts["fs"] {
 		ph := &fsPhase
 		cwd, err := sb.chdir("")
 		if err != nil {
@@ -1046,12 +1071,11 @@ func run(r *core.Run) {
 					if vd.nontrivial {
 						r.Nontrivial("fs|" + rc.ID + "|" + cx.ID + "|" + sb.template(loc))
 					}
-					lib := w.libFor("fs", rc)
 					for e := 0; e < nEntries; e++ {
 						if cx.Chain && e == eLoadSource {
 							continue
 						}
-						o := w.exec(lib, cx, execL, e, loc)
+						o := w.exec(w.libFor("fs", rc), cx, execL, e, loc)
 						w.evals++
 						d.handle(w, "fs", ph, cwd, rc, cx, e, L, loc, &vd, &o, dirfs)
 					}
@@ -1062,6 +1086,15 @@ func run(r *core.Run) {
 			w.flush(r, tot, info, &mu)
 		}
 		r.AddStates(n)
+	}
+
+	// ---- part three: operation histories on one library instance
+	if parts["history"] && !r.Expired() && !r.Saturated() {
+		K := 2
+		if r.Thorough() {
+			K = 3
+		}
+		d.runHistories(K, tot, info, &mu)
 	}
 
 	// outcome classes: counted locally (a shared counter per case would serialise
